@@ -65,6 +65,16 @@ def _vkey(v):
     return ("id", id(v))
 
 
+class CodeToken:
+    """stands for a function's __code__ object (hashable, compared by identity)"""
+
+    def __init__(self, name):
+        self.name = name
+
+    def __repr__(self):
+        return f"<code {self.name}>"
+
+
 class UserFn:
     """an arbitrary user function with a declared signature.  Calls are logged (ghost) and return
     an App term, i.e. nothing is assumed about the function except that it is a function."""
@@ -75,6 +85,9 @@ class UserFn:
         self.kwonly_defaults = dict(kwonly_defaults or {})
         self.calls = []
         self.returns = returns
+        # functions created by evaluating the SAME def / lambda expression share their code object while having
+        # their own defaults: `code` is that shared token (pass the same CodeToken to model such closures)
+        self.code = CodeToken(name)
 
     def tpv_argspec(self, I):
         from .pylib import ArgSpec
@@ -113,6 +126,10 @@ class UserFn:
     def tpv_getattr(self, I, name):
         if name == "__name__":
             return self.name
+        if name == "__code__":
+            return self.code
+        if name == "__defaults__":
+            return tuple(self.defaults[a] for a in self.args if a in self.defaults) or None
         from .interp import RaisedEx
 
         raise RaisedEx("AttributeError", name)
